@@ -13,6 +13,7 @@
         AddOperator ---@class N  ---@operator op(T): T
         AddLocal    ---@type T   local v = expr
         AddCast     ---@cast v T | --[[@as T]] | ---@cast v +T / -T
+        AddTypedUse ---@type <declared name, applied / array / optional>  local v = nil ; then a use of v
         AddUse      a statement using an expression (member chains, calls, index, arithmetic, metatable ...)
         Corrupt     damages the annotation text of an earlier item (malformed generics, unbalanced brackets)
 
@@ -126,10 +127,20 @@ AddOverloads == \E f \in Pick(FilesOf), n \in Pick(Funcs), owner \in Pick({""} \
                    p \in Pick(Types1), r \in Pick(Types1), ov \in Pick(Types1) :
                   Add2(Item("func", f, n, "T", <<p, r>>, ov, owner), Item("use", f, "x", "local", <<>>, NoT, "fa(fa(v))") @@ [w |-> "y"])
 
+\* a variable typed by one of the declared (possibly recursive) names, immediately used: member access,
+\* indexing, call ... on a value of that type is where the analyzer recurses over the declaration
+AddTypedUse == \E f \in Pick(FilesOf), v \in Pick(Vars), n \in Pick(Classes \cup Aliases),
+                  shape \in Pick({"name", "app", "arr", "opt", "appself"}), e \in Pick(Exprs),
+                  how \in Pick({"local", "print", "if", "for"}) :
+                 Add2(Item("local", f, v, "", <<CASE shape = "name" -> N(n) [] shape = "app" -> Un("app", n, N("integer"))
+                                                 [] shape = "arr" -> Un("arr", "", N(n)) [] shape = "opt" -> Un("opt", "", N(n))
+                                                 [] OTHER -> Un("app", n, N(n))>>, NoT, "nil"),
+                      Item("use", f, v, how, <<>>, NoT, e) @@ [w |-> v])
+
 Finish == /\ phase = "gen" /\ Len(prog) >= 4
           /\ phase' = "done" /\ UNCHANGED <<prog, level, strict>>
 
-Next == AddCyclicSupers \/ AddRecursiveAlias \/ AddGenericCycle \/ AddOverloads \/ AddClass \/ AddAlias \/ AddField \/ AddFunc \/ AddOperator \/ AddLocal \/ AddCast \/ AddUse \/ Corrupt \/ Finish
+Next == AddTypedUse \/ AddCyclicSupers \/ AddRecursiveAlias \/ AddGenericCycle \/ AddOverloads \/ AddClass \/ AddAlias \/ AddField \/ AddFunc \/ AddOperator \/ AddLocal \/ AddCast \/ AddUse \/ Corrupt \/ Finish
 Spec == Init /\ [][Next]_vars
 
 \* ---- generator invariants -------------------------------------------------------------------------------
